@@ -250,6 +250,13 @@ func runStack(sc Scenario, tr *Trace, seed int64) {
 					req.Header.Set("Cookie", stackCookie)
 				}
 				rec := httptest.NewRecorder()
+				if boolOr(st, "preset", false) {
+					// something in front of the stack (a session or CSRF wrapper, an outer balancer) has already put
+					// headers on the response: a transparent stack leaves them there
+					rec.Header().Add("Set-Cookie", "session=abc123; Path=/; HttpOnly")
+					rec.Header().Add("Set-Cookie", "csrf=t0k3n")
+					rec.Header().Set("X-Outer", "front")
+				}
 				v := respView{}
 				if sh, ok := hh.(*stackHandler); ok {
 					sh.probe = func() bool { return rec.Flushed }
@@ -303,6 +310,19 @@ func runStack(sc Scenario, tr *Trace, seed int64) {
 		}
 		for k, v := range bare.hdr {
 			if skip[k] {
+				continue
+			}
+			if k == "Set-Cookie" && boolOr(st, "preset", false) {
+				// cookies may be ADDED (a sticky balancer's documented cookie); the ones already there stay, in order
+				i := 0
+				for _, gv := range got.hdr[k] {
+					if i < len(v) && gv == v[i] {
+						i++
+					}
+				}
+				if i != len(v) {
+					hdrsEq = false
+				}
 				continue
 			}
 			if strings.Join(got.hdr[k], "|") != strings.Join(v, "|") {
